@@ -263,7 +263,7 @@ def main(argv):
                 err = abs(got[0] - got[1]) / sc
                 stats["worst_reciprocity_error"] = max(stats["worst_reciprocity_error"], err)
                 mesh_level = False
-                if err > 1e-6 and kind == "m" and axi:
+                if not (err <= 1e-6) and kind == "m" and axi:
                     # axisymmetric magnetics: the flux-linkage integrals of the post-processor are not the reaction of the
                     # assembled (modified-potential) matrix, so the discrete couplings agree only to mesh accuracy — which is decided,
                     # not assumed: the same pair on a mesh four times as fine must show less than half the asymmetry (one halving is not enough on
@@ -278,7 +278,7 @@ def main(argv):
                         errf = abs(gf[0] - gf[1]) / scf
                         stats.setdefault("axi_asymmetry_coarse_fine", []).append((err, errf))
                         mesh_level = errf < 0.5 * err and err < 0.2
-                if err > 1e-6:
+                if not (err <= 1e-6):
                     ck.violation("reciprocity:m:axi:mesh-level" if mesh_level else
                                  "reciprocity:%s:%s" % (kind, "axi" if axi else "planar"),
                                  "%s %s: coupling 1->2 = %.9g, 2->1 = %.9g (self terms %.3g, %.3g)" % (kind, "axisymmetric" if axi else "planar", got[0], got[1],
